@@ -49,7 +49,7 @@ static void prop(Tape &t, Ctx &c) {
                 VF_CHECK(rc <= (int32) in.n, "parse-length-overrun", "psX509ParseCert returned parsed length %d > input %zu", rc, in.n);
         }
         psX509FreeCert(cert);
-        leak.check(fmt("rc=%d flags=%d", rc, flags));
+        C09_LEAK_CHECK(leak, "rc=%d flags=%d", rc, flags);
     }
     if (rc >= 0 && nok > 0) { c.count("parsed"); c.count(fmt("parsed.flags%d", flags)); if (ncerts > 1) c.count("parsed.chain"); }
     else if (deep) c.count("rejected.deep");
